@@ -184,7 +184,18 @@ class Read(Suite):
                 warnings.simplefilter("always")
                 df, comments = read_swc(src, **kw)
             cols = {k: df[k].tolist() for k in df.columns}
-            return {"df": cols, "comments": list(comments), "warnings": [str(x.message)[:60] for x in w], "via": "read_swc"}
+            res = {"df": cols, "comments": list(comments), "warnings": [str(x.message)[:60] for x in w], "via": "read_swc"}
+            if case["n_extra"] and case["mode"] in ("extra", "sorted-read") and case["source"] == "text":
+                # the same text through the tree front end: the requested extra columns are per-node data of the tree
+                from swcgeom.core import Tree
+
+                with warnings.catch_warnings():
+                    warnings.simplefilter("ignore")
+                    t = Tree.from_swc(io.StringIO(text, newline=None) if "\r" in text else io.StringIO(text), **kw)
+                res["tree_keys"] = sorted(str(k) for k in t.keys())
+                res["tree_extra"] = {f"e{j}": [float(v) for v in t.get_ndata(f"e{j}")] if f"e{j}" in t.keys() else None for j in range(case["n_extra"])}
+                res["tree_x"] = [float(v) for v in t.x()]
+            return res
         finally:
             if tmp:
                 shutil.rmtree(tmp, ignore_errors=True)
@@ -207,6 +218,15 @@ class Read(Suite):
         n = len(rows)
         if len(df["id"]) != n:
             return [("row-count", f"{len(df['id'])} nodes for {n} data rows")]
+        if "tree_extra" in res:
+            # Tree.from_swc(extra_cols=…): same rows as read_swc (float32 storage), extra columns included
+            for j in range(case["n_extra"]):
+                got = res["tree_extra"][f"e{j}"]
+                if got is None:
+                    out.append(("tree-extra-col-dropped", f"Tree.from_swc(extra_cols=[…'e{j}'…]) has no per-node column 'e{j}' (keys {res['tree_keys']})")); break
+                want = [float(np.float32(v)) for v in df[f"e{j}"]]
+                if len(got) != len(want) or any(abs(a - b) > 1e-6 * max(1.0, abs(b)) for a, b in zip(got, want)):
+                    out.append(("tree-extra-col", f"Tree.from_swc: extra column e{j} is {got[:6]}…, the table read from the same text has {want[:6]}…")); break
         if mode == "sorted-read":
             # isomorphic to the file's graph: identify nodes by their (unique by construction? no) row -> use full attribute tuple + id map
             by_attr = {}
